@@ -23,7 +23,7 @@ func init() {
 			"Oracle: reference conversions written from XPath 1.0 §3.4/§4.2-4.4 (string(number) accepted iff right lexical form and reads back to the same double). Relations: number(string(x)) = x for finite x, boolean(x) = not(not(x)), string(ns) = string of the first node in document order. " +
 			"distinct_nontrivial = distinct (conversion, value class/value) pairs",
 		Assumptions: []string{"'shortest' decimal expansion is not demanded of string(number), only round-trip and lexical form"},
-		NCases:      func(tier string) int { return map[string]int{"quick": 160, "thorough": 6000}[tier] },
+		NCases:      func(tier string) int { return map[string]int{"quick": 3000, "thorough": 120000}[tier] },
 		Case:        c04Case,
 	})
 }
